@@ -836,12 +836,19 @@ func (g *gen) genUnit(i int) {
 			if rapid.Bool().Draw(g.rt, "fieldsptr") {
 				t = g.addType(Type{Kind: KPtr, Elem: s})
 			}
-		} else if k == 0 && !extForm && p.Form == "func" && g.allow("ext") && g.want("local-provider-ext-result", "locext", 10) {
+		} else if k == 0 && !extForm && g.allow("ext") && (p.Form == "func" && g.want("local-provider-ext-result", "locext", 10) || p.Form == "lit" && g.want("local-provider-ext-result", "locext-lit", 45)) {
 			// a provider of the user package whose result type lives in another package: the
 			// declaration file need not mention that package anywhere
 			e := g.ensureExt()
 			t = g.addType(Type{Kind: KPtr, Elem: g.newStruct(e.Key, false)})
 			locExt = true
+			if p.Form == "lit" && e.Alias != "" && len(p.Params) > 0 && p.Params[0] != CtxType && !p.Variadic {
+				// an inline provider whose first parameter is named like the package its body
+				// mentions under an alias: func(extlib Taa) *xl.Eaa
+				p.Param0Name = e.Name
+				p.Err = true
+				g.c.AddFeature("literal-param-named-like-aliased-package")
+			}
 		} else {
 			t = g.freshValueType(extForm, "restype")
 		}
